@@ -1,0 +1,17 @@
+//go:build !verif
+
+package actionlint
+
+import "golang.org/x/sync/errgroup"
+
+// Schedule points of the verification framework (see verif_sched_on.go). Without the build tag
+// "verif" they are empty functions which the compiler removes.
+
+func verifPoint(kind string, proc *concurrentProcess, eg *errgroup.Group, exec *cmdExecution) {}
+
+func verifExit(proc *concurrentProcess, eg *errgroup.Group, exec *cmdExecution, stdout []byte, err error) {
+}
+
+func verifRet(err error, kind string, proc *concurrentProcess, eg *errgroup.Group, exec *cmdExecution) error {
+	return err
+}
